@@ -1308,6 +1308,69 @@ fn arb(_t: &str, _data: &[u8]) -> String {
     "feature-off".into()
 }
 
+/// `T::arbitrary` of a named type (request types, their nested structures and enumerations): value and bytes left
+#[cfg(feature = "arbitrary")]
+fn arbty(t: &str, data: &[u8]) -> String {
+    use arbitrary::{Arbitrary, Unstructured};
+    let mut u = Unstructured::new(data);
+    macro_rules! go {
+        ($ty:ty) => {{
+            let r = <$ty>::arbitrary(&mut u);
+            match r {
+                Ok(v) => format!("ok {} rest={} wt=1", v.to_val().show(), u.len()),
+                Err(e) => format!("err {:?}", e),
+            }
+        }};
+    }
+    match t {
+        "ctap2::make_credential::Request" => go!(mc::Request),
+        "ctap2::get_assertion::Request" => go!(ga::Request),
+        "ctap2::client_pin::Request" => go!(client_pin::Request),
+        "ctap2::credential_management::Request" => go!(cm::Request),
+        "ctap2::large_blobs::Request" => go!(lb::Request),
+        "ctap2::make_credential::Extensions" => go!(mc::Extensions),
+        "ctap2::get_assertion::ExtensionsInput" => go!(ga::ExtensionsInput),
+        "ctap2::get_assertion::HmacSecretInput" => go!(ga::HmacSecretInput),
+        "ctap2::AuthenticatorOptions" => go!(ctap2::AuthenticatorOptions),
+        "ctap2::AttestationFormatsPreference" => go!(ctap2::AttestationFormatsPreference),
+        "ctap2::AttestationStatementFormat" => go!(ctap2::AttestationStatementFormat),
+        "ctap2::client_pin::PinV1Subcommand" => go!(client_pin::PinV1Subcommand),
+        "ctap2::credential_management::Subcommand" => go!(cm::Subcommand),
+        "ctap2::credential_management::SubcommandParameters" => go!(cm::SubcommandParameters),
+        "webauthn::PublicKeyCredentialRpEntity" => go!(wa::PublicKeyCredentialRpEntity),
+        "webauthn::PublicKeyCredentialUserEntity" => go!(wa::PublicKeyCredentialUserEntity),
+        "webauthn::PublicKeyCredentialDescriptorRef" => go!(wa::PublicKeyCredentialDescriptorRef),
+        "webauthn::FilteredPublicKeyCredentialParameters" => go!(wa::FilteredPublicKeyCredentialParameters),
+        "ctap1::register::Request" => match ctap1::register::Request::arbitrary(&mut u) {
+            Ok(r) => format!(
+                "ok {} rest={} wt=1",
+                Val::Rec(vec![("challenge".into(), Val::Bytes(r.challenge.to_vec())), ("app_id".into(), Val::Bytes(r.app_id.to_vec()))]).show(),
+                u.len()
+            ),
+            Err(e) => format!("err {:?}", e),
+        },
+        "ctap1::authenticate::Request" => match ctap1::authenticate::Request::arbitrary(&mut u) {
+            Ok(r) => format!(
+                "ok {} rest={} wt=1",
+                Val::Rec(vec![
+                    ("control_byte".into(), Val::Enum(format!("{:?}", r.control_byte))),
+                    ("challenge".into(), Val::Bytes(r.challenge.to_vec())),
+                    ("app_id".into(), Val::Bytes(r.app_id.to_vec())),
+                    ("key_handle".into(), Val::Bytes(r.key_handle.to_vec())),
+                ])
+                .show(),
+                u.len()
+            ),
+            Err(e) => format!("err {:?}", e),
+        },
+        _ => "unknown-type".into(),
+    }
+}
+#[cfg(not(feature = "arbitrary"))]
+fn arbty(_t: &str, _data: &[u8]) -> String {
+    "feature-off".into()
+}
+
 /// generate a request from raw bytes and exercise it: format, clone, compare, dispatch
 #[cfg(feature = "arbitrary")]
 fn arbreq(kind: &str, data: &[u8]) -> String {
@@ -1368,6 +1431,7 @@ fn run(op: &str, a: &[&str]) -> String {
     match (op, a.len()) {
         ("arb", 2) => arb(a[0], &opt_hex(a[1])),
         ("arbreq", 2) => arbreq(a[0], &opt_hex(a[1])),
+        ("arbty", 2) => arbty(a[0], &opt_hex(a[1])),
         ("dec2", 1) => {
             let data = unhex(a[0]);
             let out = match ctap2::Request::deserialize(&data) {
